@@ -348,6 +348,13 @@ GeneratedCircuit _generate_unrotated_surface_code_circuit(const CircuitGenParame
 }
 
 GeneratedCircuit stim::generate_surface_code_circuit(const CircuitGenParameters &params) {
+    // Check the size parameters before placing qubits (the placement loops assume distance >= 1).
+    if (params.rounds < 1) {
+        throw std::invalid_argument("Need rounds >= 1.");
+    }
+    if (params.distance < 2) {
+        throw std::invalid_argument("Need a distance >= 2.");
+    }
     if (params.task == "rotated_memory_x") {
         return _generate_rotated_surface_code_circuit(params, true);
     } else if (params.task == "rotated_memory_z") {
